@@ -50,7 +50,7 @@ class Port(Device, OutMixIn):
 
             if self.rate > 0:
                 yield env.timeout(packet.size * 8 / self.rate)
-                self.byte_size -= packet.size
+            self.byte_size -= packet.size
             if self.out:
                 self.out.put(packet)
 
